@@ -248,6 +248,24 @@ func famC03(t *testing.T) []netFamily {
 			h.hopAck(0, 1, u, unauthAck)
 			h.hopAck(0, 1, u, unauthAck)
 		}},
+		{"refusal-at-the-relay-is-final", func(h *NetH) {
+			// the error acknowledgement a relay chain wrote for a refused packet stays what it is:
+			// after the rules change, replays of the receive must not lead to a second, different
+			// acknowledgement for the same packet (written over the first one by the pass-through)
+			A, B, C := h.names[0], h.names[1], h.names[2]
+			h.SetRules(1, []string{A + "," + C + ",NFT"})
+			p := h.sendOK(0, Pkt{1, A, C, B, "tibcmock", "~refused-first"})
+			h.UpdateClient(1, 0)
+			hb := h.latestKnown(1, 0)
+			h.recvAt(1, 0, p, hb) // refused: error acknowledgement on B
+			h.hopAck(0, 1, p, unauthAck)
+			h.SetRules(1, []string{"*,*,*"})
+			h.recvAt(1, 0, p, hb) // the same message again (old proof, old height)
+			h.hopRecv(1, 0, p)
+			h.hopRecv(2, 1, p)
+			h.hopAck(1, 2, p, mockAck) // would overwrite B's error acknowledgement
+			h.hopAck(0, 1, p, mockAck)
+		}},
 	}
 }
 
